@@ -185,6 +185,12 @@ func unmapLinkProperties(mm map[string][]byte, l *Link) error {
 			return err
 		}
 	}
+	if raw, ok := mm["preview"]; ok {
+		var err error
+		if l.Preview, err = gobDecodeItem(raw); err != nil {
+			return err
+		}
+	}
 	return nil
 }
 
